@@ -118,6 +118,34 @@ def gen_gfind(rng, tier, dirs, budget):
                                     return
 
 
+def gen_gexhaustive(rng, tier, dirs, count=False):
+    """EXHAUSTIVE on the 2-lane checked vector type: every haystack over {needle, filler} (and
+    over {needle1, needle2, filler}) up to a length covering head chunk, several unrolled and
+    single-vector iterations and the tail, at both base residues"""
+    lanes = 2
+    maxlen2 = 12 if tier == "quick" else 16
+    maxlen3 = 7 if tier == "quick" else 10
+    for k in (1, 2, 3):
+        u = UNROLL[k]
+        needles = NEEDLE_SETS[k][0]
+        fill = filler_for(needles)
+        alphabets = [([needles[0], fill], maxlen2)]
+        if k >= 2:
+            alphabets.append(([needles[0], needles[1], fill], maxlen3))
+        for alpha, maxlen in alphabets:
+            for length in range(lanes, maxlen + 1):
+                for t in itertools.product(alpha, repeat=length):
+                    for base in (64, 65):
+                        if count:
+                            if k == 1:
+                                yield ("gcount %d %s %d %d 0 %d %s" % (lanes, hx(needles), 4, base, length, hx(t)),
+                                       dict(domain="in", family="gcount-exhaustive-2"))
+                        else:
+                            for d in dirs:
+                                yield ("gfind %d %s %d %s %d 0 %d %s" % (lanes, hx(needles), u, d, base, length, hx(t)),
+                                       dict(domain="in", family="gfind-exhaustive-2-%d" % k))
+
+
 def gen_gcount(rng, tier, budget):
     lanes_list = [4, 8] if tier == "quick" else [2, 4, 8, 16]
     n = 0
@@ -158,6 +186,7 @@ def g_c02(rng, tier, budget):
 
 def g_c07(rng, tier, budget):
     yield from gen_gcount(rng, tier, budget)
+    yield from gen_gexhaustive(rng, tier, [], count=True)
 
 
 GENERATORS = {"C01": g_c01, "C02": g_c02, "C07": g_c07}
@@ -874,11 +903,13 @@ def gen_byte_api(rng, tier, dirs, budget, with_count=False):
 
 def g_c01(rng, tier, budget):
     yield from gen_gfind(rng, tier, ["fwd"], budget)
+    yield from gen_gexhaustive(rng, tier, ["fwd"])
     yield from gen_byte_api(rng, tier, ["fwd"], budget)
 
 
 def g_c02(rng, tier, budget):
     yield from gen_gfind(rng, tier, ["rev"], budget)
+    yield from gen_gexhaustive(rng, tier, ["rev"])
     yield from gen_byte_api(rng, tier, ["rev"], budget)
 
 
@@ -897,6 +928,7 @@ def dense_cases(rng, tier):
 
 def g_c07(rng, tier, budget):
     yield from gen_gcount(rng, tier, budget)
+    yield from gen_gexhaustive(rng, tier, [], count=True)
     cfgs = BYTE_CFGS_QUICK if tier == "quick" else BYTE_CFGS_THOROUGH
     for needles, base, hay in dense_cases(rng, tier):
         for (variant, picked, direct) in cfgs:
@@ -1003,8 +1035,89 @@ def mm_pairs(rng, tier, budget_pairs):
     yield from mm_pairs_targeted(rng, tier)
 
 
+def grammar_needles(rng):
+    """needle shapes: periodic with short / long period, unbordered, single letter runs with a
+    defect, random over small alphabets; lengths on both sides of 32"""
+    alpha = [0x61, 0x62, 0x63, 0x64]
+    L = rng.choice([2, 3, 4, 5, 6, 8, 11, 16, 20, 31, 32, 33, 34, 36, 40, 48, 64, 70])
+    kind = rng.randrange(7)
+    if kind == 0:      # w^k prefix, short period
+        p = rng.randrange(1, max(2, L // 3 + 1))
+        w = [rng.choice(alpha) for _ in range(p)]
+        return [w[i % p] for i in range(L)]
+    if kind == 1:      # long period, short border
+        b = rng.randrange(1, max(2, L // 3))
+        w = [rng.choice(alpha + [0x65, 0x66]) for _ in range(L - b)]
+        return w + w[:b]
+    if kind == 2:      # x y^(L-1) / y^(L-1) x
+        y, x = rng.sample(alpha, 2)
+        return [x] + [y] * (L - 1) if rng.random() < 0.5 else [y] * (L - 1) + [x]
+    if kind == 3:      # run with one defect
+        n = [alpha[0]] * L
+        n[rng.randrange(L)] = alpha[1]
+        return n
+    if kind == 4:      # u^k v
+        p = rng.randrange(1, max(2, L // 2))
+        w = [rng.choice(alpha) for _ in range(p)]
+        n = [w[i % p] for i in range(L)]
+        n[-1] = rng.choice(alpha)
+        return n
+    if kind == 5:      # rare byte somewhere in common text
+        n = [rng.choice([0x65, 0x74, 0x20, 0x61]) for _ in range(L)]
+        n[rng.randrange(L)] = 0x51
+        return n
+    return [rng.choice(alpha[:2 + rng.randrange(3)]) for _ in range(L)]
+
+
+def grammar_haystack(rng, needle):
+    """haystack = random concatenation of pieces derived from the needle: slices, copies with
+    one byte changed, copies missing their head or tail, foreign runs, full copies"""
+    L = len(needle)
+    out = []
+    target = rng.choice([L, L + 3, 16, 24, 40, 64, 70, 100, 160])
+    foreign = [0x23, 0x7A]
+    while len(out) < target:
+        k = rng.randrange(9)
+        if k == 0:
+            out += needle
+        elif k == 1:
+            a = rng.randrange(L)
+            out += needle[a:]
+        elif k == 2:
+            b = rng.randrange(1, L + 1)
+            out += needle[:b]
+        elif k == 3:
+            c = list(needle)
+            c[rng.randrange(L)] ^= rng.choice([1, 2, 0x20])
+            out += c
+        elif k == 4:
+            c = list(needle)
+            c[0] = rng.choice(foreign)
+            out += c
+        elif k == 5:
+            out += [rng.choice(foreign)] * rng.choice([1, 1, 2, 5, L])
+        elif k == 6:
+            a = rng.randrange(L)
+            b = rng.randrange(a, L + 1)
+            out += needle[a:b]
+        elif k == 7:
+            out += [rng.choice(needle) for _ in range(rng.randrange(1, 6))]
+        else:
+            c = list(needle)
+            c[-1] ^= 1
+            out += c
+    if rng.random() < 0.3:
+        out = out[:target]
+    return out
+
+
 def mm_pairs_targeted(rng, tier):
     """small families aimed at specific loop interactions; always run in full"""
+    # grammar-based random pairs: needle shapes x haystacks assembled from the needle's own
+    # factors, near-misses and foreign bytes
+    for _ in range(5000 if tier == "quick" else 60000):
+        needle = grammar_needles(rng)
+        yield needle, grammar_haystack(rng, needle)
     # every short needle over {a,b} against pseudo-random haystacks over {a,b,#}: '#' is a byte
     # outside the needle's byte set, so byte-set skips interleave with period shifts
     for nlen in range(2, 9 if tier == "quick" else 11):
